@@ -39,6 +39,7 @@ var verifC17Src = []string{
 	"select id, max(v) over (partition by p order by k rows between current row and 2 preceding) from t",           // 25: empty frame
 	"select id, count(v) over (partition by p order by k rows 9223372036854775807 preceding) from t",               // 26: offset beyond any partition
 	"select id, first_value(v) over (partition by p order by k rows between 1 following and 9223372036854775807 following) from t", // 27
+	"select id, lag(v, 1, 'n') over (partition by p order by k), lag(v, 1, 'N') over (partition by p order by k) from t",            // 28: differ in the case of a literal only
 }
 
 var verifC17Queries []parser.SelectQuery
@@ -248,6 +249,14 @@ func VerifC17Analytic() {
 				}
 			}
 			verifAssert("LAG IGNORE NULLS", isCell(f))
+		case 28:
+			if pos == 0 {
+				s1, ok1 := view.RecordSet[r][1][0].(*value.String)
+				s2, ok2 := view.RecordSet[r][2][0].(*value.String)
+				verifAssert("LAG defaults that differ only in letter case stay different", ok1 && ok2 && s1.Raw() == "n" && s2.Raw() == "N")
+			} else {
+				verifAssert("LAG next to a LAG that differs in a literal's case", isCell(pos-1))
+			}
 		case 24:
 			verifAssert("COUNT over an empty frame", isInt(0))
 		case 25:
